@@ -748,6 +748,30 @@ def check_other_paths(ctx, samples, opts, fail):
             t.drop_index()
     if nm1 != nm2 or not tc1.equals(tc2, ignore_provenance=True):
         fail("paths:ts_vs_tables", f"TreeSequence.simplify and TableCollection.simplify differ: {nm1} {nm2}")
+    # the deprecated spelling of filter_sites (still documented) must mean the same, on both entry points
+    if "filter_sites" in opts:
+        alias = {k: v for k, v in opts.items() if k != "filter_sites"}
+        alias["filter_zero_mutation_sites"] = opts["filter_sites"]
+        import warnings
+
+        for route in ("ts", "tc"):
+            try:
+                with warnings.catch_warnings():
+                    warnings.simplefilter("ignore")
+                    if route == "ts":
+                        ts2, nma = ctx.ts().simplify(samples, map_nodes=True, record_provenance=False, **alias)
+                        tca, nma = ts2.dump_tables(), nma.tolist()
+                    else:
+                        tca = ctx.ts().dump_tables()
+                        nma = tca.simplify(samples, record_provenance=False, **alias).tolist()
+            except Exception as e:  # noqa
+                fail("paths:alias:raised", f"{route}: simplify(filter_zero_mutation_sites={opts['filter_sites']}) raised {e!r}")
+                continue
+            if tca.has_index():
+                tca.drop_index()
+            if nma != nm1 or not tca.equals(tc1, ignore_provenance=True):
+                fail("paths:alias:filter_zero_mutation_sites", f"{route}: filter_zero_mutation_sites={opts['filter_sites']} "
+                     f"differs from filter_sites={opts['filter_sites']}")
     # the same samples in every form a caller may pass them (strided / reversed views, other
     # integer widths, tuples): the glue must see the same sequence
     from ..argforms import array_forms
